@@ -79,8 +79,35 @@ def rule_lb_keogh(ctx, m):
                 while cur is not None and cur.k == 'if':
                     conds.append((cur.cond, cur.then))
                     cur = cur.els[0] if len(cur.els) == 1 and cur.els[0].k == 'if' else None
-        pairs = [(c[1], fmt(c[2]), fmt(c[3])) for c, th in conds if c[0] == 'bin']
-        ok = ('>', 'ci', 'ui') in pairs and ('<', 'ci', 'li') in pairs
+        # roles, not spellings: upper / lower = the locals holding the maximum / minimum of the envelope window, elem = the element of series 1
+        INFS = (('num', float('inf')), ('var', 'inf'), ('attr', ('var', 'np'), 'inf'))
+        role = {}
+        for s_ in walk_stmts(outer.body):
+            if s_.k == 'assign' and s_.target[0] == 'var':
+                v = s_.value
+                callee = (dotted(v[1]) or '').split('.')[-1] if v[0] == 'call' else ''
+                s2name = params[2 if lang == 'c' else 1]
+                win_vars = {fmt(t_.target) for t_ in walk_stmts(outer.body) if t_.k == 'assign' and t_.target[0] == 'var' and t_.value[0] == 'idx' and t_.value[1] == ('var', s2name)}
+                # the envelope extreme is taken over a window (subscript / slice) of the second series, directly or through a local holding that window
+                over_env = v[0] == 'call' and any((x[0] == 'idx' and x[1] == ('var', s2name)) or (x[0] == 'var' and x[1] in win_vars) for a_ in v[2] for x in walk_expr(a_))
+                if ('max' in callee and over_env) or v == ('un', 'neg', ('num', float('inf'))) or v == ('num', float('-inf')) or (v[0] == 'un' and v[1] == 'neg' and v[2] in INFS):
+                    role.setdefault('upper', fmt(s_.target))
+                elif ('min' in callee and over_env) or v in INFS:
+                    role.setdefault('lower', fmt(s_.target))
+                elif v[0] == 'idx' and v[1] == ('var', params[0]):
+                    role.setdefault('elem', fmt(s_.target))
+        elem = role.get('elem')
+        pairs = []
+        for c, th in conds:
+            if c[0] == 'bin' and c[1] in ('<', '>', '<=', '>='):
+                op, l, r = c[1], fmt(c[2]), fmt(c[3])
+                if elem is None and c[2][0] == 'idx' and c[2][1] == ('var', params[0]):
+                    elem = l
+                if r == elem or (elem is None and c[3][0] == 'idx' and c[3][1] == ('var', params[0])):
+                    op, l, r = {'<': '>', '>': '<', '<=': '>=', '>=': '<='}[op], r, l
+                    elem = elem or l
+                pairs.append((op, l, r))
+        ok = elem is not None and ('>', elem, role.get('upper')) in pairs and ('<', elem, role.get('lower')) in pairs
         ctx.check(ok, 'R-BAND', file, nm, 'envelope comparisons', 'an element contributes only when strictly above the upper or strictly below the lower envelope; found %s' % pairs, outer.line)
         ctx.sample({'copy': '%s (%s)' % (nm, lang), 'envelope': [sym.show(lo)[:160], sym.show(hi)[:160]]})
     # python window default
@@ -91,65 +118,270 @@ def rule_lb_keogh(ctx, m):
 ED_C = ['euclidean_distance', 'euclidean_distance_euclidean', 'euclidean_distance_ndim', 'euclidean_distance_ndim_euclidean']
 
 
+def _sum_loops(name, body, lang, s1n, s2n, l1e, l2e, ndim=None):
+    """Summary of a Euclidean-distance routine: the accumulating loops in execution order as
+    (path conditions, lo term, hi term, {index terms of the reads of series 1}, {... of series 2}, loop stmt) with the loop variable as atom `k`,
+    plus the return events.  Python `for a, b in zip(s1, s2)` / `for a in s1[n:]` loops are read as index ranges."""
+    def atom(e):
+        if e == l1e:
+            return 'L1'
+        if e == l2e:
+            return 'L2'
+        if e[0] == 'var':
+            return e[1]
+        return None
+
+    def term(e):
+        return sym.from_ir(norm_minmax(e), atom=atom)
+    loops = []
+
+    def reads_in(stmts, env):
+        r1, r2 = set(), set()
+
+        def scan(e):
+            for x in walk_expr(e):
+                if x[0] == 'idx' and x[1] == ('var', s1n) and x[2][0] != 'slice':
+                    r1.add(x[2])
+                if x[0] == 'idx' and x[1] == ('var', s2n) and x[2][0] != 'slice':
+                    r2.add(x[2])
+
+        def on_loop(lp, env_, ex_):
+            if lp.k == 'for':
+                e2 = env_.copy()
+                e2[lp.var] = ('var', lp.var)
+                a, b = reads_in(lp.body, e2)
+                r1.update(a)
+                r2.update(b)
+            return None
+        ex = Exec(on_loop=on_loop)
+        out = ex.run(stmts, env.copy())
+        for ev in ex.events:
+            for c in ev[1]:
+                scan(c)
+            for x in ev[2:]:
+                if isinstance(x, tuple):
+                    scan(x)
+        for v in (out or {}).values():
+            if isinstance(v, tuple):
+                scan(v)
+        return r1, r2
+
+    def on_loop(lp, env, ex):
+        e2 = env.copy()
+        if lp.k == 'for':
+            lo, hi = subst_expr(lp.lo, env), subst_expr(lp.hi, env)
+            e2[lp.var] = ('var', 'k')
+        elif lp.k == 'foreach':
+            it = subst_expr(lp.iter, env)
+            K = ('var', 'k')
+
+            def series_range(x):
+                """(series name, lo, hi) of an iterated series / tail slice"""
+                if x == ('var', s1n):
+                    return s1n, ('num', 0), l1e
+                if x == ('var', s2n):
+                    return s2n, ('num', 0), l2e
+                if x[0] == 'idx' and x[2][0] == 'slice' and x[1] in (('var', s1n), ('var', s2n)) and x[2][2] is None and x[2][3] is None:
+                    return x[1][1], (x[2][1] if x[2][1] is not None else ('num', 0)), (l1e if x[1][1] == s1n else l2e)
+                return None
+            if it[0] == 'call' and dotted(it[1]) == 'zip' and len(it[2]) == 2 and lp.target[0] == 'tuple' and len(lp.target[1]) == 2:
+                a, b = series_range(it[2][0]), series_range(it[2][1])
+                if a is None or b is None or a[1] != b[1]:
+                    return None
+                lo, hi = a[1], ('min', (a[2], b[2]))
+                for tv, sr in zip(lp.target[1], (a, b)):
+                    if tv[0] == 'var':
+                        e2[tv[1]] = ('idx', ('var', sr[0]), K)
+            else:
+                a = series_range(it)
+                if a is None or lp.target[0] != 'var':
+                    return None
+                lo, hi = a[1], a[2]
+                e2[lp.target[1]] = ('idx', ('var', a[0]), K)
+        else:
+            return None
+        r1, r2 = reads_in(lp.body, e2)
+        try:
+            loops.append((tuple(ex.path), term(lo), term(hi), set(r1), set(r2), lp))
+        except sym.Unsupported as exn:
+            raise AnalysisError('unrecognised shape: loop bounds / subscripts of %s: %s' % (name, exn))
+        return None
+    ex = Exec(on_loop=on_loop)
+    ex.run(body, Env())
+    return loops, ex.returns, term
+
+
 def rule_euclidean(ctx, m):
-    """Shape of the Euclidean distance: common prefix, padding with the LAST element of the shorter series, final root."""
+    """Shape of the Euclidean distance, decided on a loop summary: the common prefix [0, min(l1, l2)) pairs element k with element k; the
+    surplus [n, l) of the longer series is paired with the LAST element n-1 of the shorter one; the squared variants return the root of the sum."""
+    L1, L2 = V('L1'), V('L2')
+    n_t = tmin(L1, L2)
+    DOMN = [sub(L1, C(1)), sub(L2, C(1))]
+    BOXN = {'L1': range(1, 7), 'L2': range(1, 7), 'k': range(0, 7), 'NDIM': range(1, 4), 'd': range(0, 3)}
+
+    def eq(a, b, dom=()):
+        return sym.equivalent(a, b, DOMN + list(dom), box=BOXN)[0] == 'equal'
+
+    def path_dom(path, term):
+        """the path conditions as constraints (t >= 0), when they are comparisons of lengths"""
+        from .iterspace import _neg_constraint
+        out = []
+        for c in kern._conj(path):
+            t = _neg_constraint(('un', 'not', c), lambda e: None) if False else None
+            cc, neg = c, False
+            while cc[0] == 'un' and cc[1] == 'not':
+                cc, neg = cc[2], not neg
+            if cc[0] == 'bin' and cc[1] in ('<', '<=', '>', '>=', '==', '!='):
+                try:
+                    a, b = term(cc[2]), term(cc[3])
+                except sym.Unsupported:
+                    continue
+                op = cc[1]
+                if neg:
+                    op = {'<': '>=', '<=': '>', '>': '<=', '>=': '<', '==': '!=', '!=': '=='}[op]
+                if op == '<':
+                    out.append(sub(sub(b, a), C(1)))
+                elif op == '<=':
+                    out.append(sub(b, a))
+                elif op == '>':
+                    out.append(sub(sub(a, b), C(1)))
+                elif op == '>=':
+                    out.append(sub(a, b))
+        return out
+
+    def decide(name, file, line, loops, term, nd):
+        """-> (prefix ok, padding ok, detail)"""
+        kt = V('k')
+
+        def item(t, dom):
+            """subscript term -> item index term (1-D: itself; n-D: (t - d) / ndim for the dimension atom d)"""
+            if not nd:
+                return t
+            # t = item * NDIM + d : recognise by substituting candidates
+            for cand in (kt, sub(n_t, C(1)), sub(L1, C(1)), sub(L2, C(1))):
+                pass
+            return t
+        msgs = []
+        pre = [lp for lp in loops if not path_dom(lp[0], term)]
+        ok_prefix = False
+        for (path, lo, hi, r1, r2, st) in pre:
+            if eq(lo, C(0)) and eq(hi, n_t):
+                ok_prefix = _reads_are(r1, kt, nd, eq, (), term) and _reads_are(r2, kt, nd, eq, (), term)
+        pads = {'l1>l2': False, 'l1<l2': False}
+        for (path, lo, hi, r1, r2, st) in loops:
+            dom = path_dom(path, term)
+            if not dom:
+                continue
+            if sym.equivalent(tmax(sub(L1, L2), C(0)), sub(L1, L2), DOMN + dom, box=BOXN)[0] == 'equal' and not eq(L1, L2, dom):
+                # l1 > l2 on this path: surplus of series 1 against the last element of series 2
+                okp = eq(lo, L2, dom) and eq(hi, L1, dom) and _reads_are(r1, kt, nd, eq, dom, term) and _reads_are(r2, sub(L2, C(1)), nd, eq, dom, term)
+                pads['l1>l2'] = pads['l1>l2'] or okp
+                if not okp:
+                    msgs.append('surplus loop at line %s (l1 > l2): range [%s, %s), reads s1[%s] s2[%s]' % (st.line, sym.show(lo), sym.show(hi), ', '.join(sorted(map(fmt, r1))), ', '.join(sorted(map(fmt, r2)))))
+            elif sym.equivalent(tmax(sub(L2, L1), C(0)), sub(L2, L1), DOMN + dom, box=BOXN)[0] == 'equal' and not eq(L1, L2, dom):
+                okp = eq(lo, L1, dom) and eq(hi, L2, dom) and _reads_are(r2, kt, nd, eq, dom, term) and _reads_are(r1, sub(L1, C(1)), nd, eq, dom, term)
+                pads['l1<l2'] = pads['l1<l2'] or okp
+                if not okp:
+                    msgs.append('surplus loop at line %s (l1 < l2): range [%s, %s), reads s1[%s] s2[%s]' % (st.line, sym.show(lo), sym.show(hi), ', '.join(sorted(map(fmt, r1))), ', '.join(sorted(map(fmt, r2)))))
+        return ok_prefix, all(pads.values()) and not msgs, '; '.join(msgs)
+
     for nm in ED_C:
         f = m.cfunc(nm)
         if f is None:
             raise AnalysisError('anchor vanished: C %s' % nm)
         nd = '_ndim' in nm
         eu = nm.endswith('_euclidean')
-        loops = [s for s in f.body if s.k == 'for']
-        ok_n = any(s.k == 'decl' and s.name == 'n' and norm_minmax(s.init) in (('min', (('var', 'l1'), ('var', 'l2'))),) for s in f.body)
-        ok_prefix = bool(loops) and loops[0].lo == ('num', 0) and loops[0].hi == ('var', 'n')
-        br = [s for s in f.body if s.k == 'if' and fmt(s.cond) == '(l1 > l2)']
-        ok_pad = False
-        if br:
-            b1 = br[0]
-            b2 = b1.els[0] if len(b1.els) == 1 and b1.els[0].k == 'if' and fmt(b1.els[0].cond) == '(l1 < l2)' else None
-            if b2 is not None:
-                l1 = [s for s in b1.then if s.k == 'for']
-                l2 = [s for s in b2.then if s.k == 'for']
-                if l1 and l2:
-                    okr = l1[0].lo == ('var', 'n') and l1[0].hi == ('var', 'l1') and l2[0].lo == ('var', 'n') and l2[0].hi == ('var', 'l2')
-                    r1 = {fmt(x) for s in walk_stmts(l1[0].body) for e in stmt_exprs(s) for x in walk_expr(e) if x[0] == 'idx' and x[1] == ('var', 's2')}
-                    r2 = {fmt(x) for s in walk_stmts(l2[0].body) for e in stmt_exprs(s) for x in walk_expr(e) if x[0] == 'idx' and x[1] == ('var', 's1')}
-                    pad1 = all('(n - 1)' in r for r in r1) and bool(r1)
-                    pad2 = all('(n - 1)' in r for r in r2) and bool(r2)
-                    ok_pad = okr and pad1 and pad2
-        ctx.check(ok_n and ok_prefix and ok_pad, 'R-PATH', f.file, nm, 'padding with the last element',
-                  'the surplus elements of the longer series must be compared with element n-1 (n = min(l1, l2)) of the shorter one '
-                  '(n ok=%s, prefix ok=%s, padding ok=%s)' % (ok_n, ok_prefix, ok_pad), f.line)
-        roots = [s for s in walk_stmts(f.body) if s.k == 'assign' and s.value[0] == 'call' and dotted(s.value[1]) == 'sqrt']
-        ret = [s for s in f.body if s.k == 'return']
+        pn = [p[0] for p in f.params]
+        s1n, l1n, s2n, l2n = pn[0], pn[1], pn[2], pn[3]
+        loops, rets, term = _sum_loops(nm, f.body, 'c', s1n, s2n, ('var', l1n), ('var', l2n))
+        ok_prefix, ok_pad, detail = decide(nm, f.file, f.line, loops, term, nd)
+        ctx.check(ok_prefix and ok_pad, 'R-PATH', f.file, nm, 'padding with the last element',
+                  'the common prefix [0, min(l1, l2)) pairs element k with element k and the surplus elements of the longer series must be compared with element n-1 '
+                  '(n = min(l1, l2)) of the shorter one (prefix ok=%s, padding ok=%s) %s' % (ok_prefix, ok_pad, detail), f.line)
+        # the value returned: sqrt(accumulated sum) for the squared kind, the sum itself for the euclidean kind
+        vals = [v for p_, v, st in rets if v is not None]
+        rooted = [v for v in vals if v[0] == 'call' and dotted(v[1]) in ('sqrt', 'sqrtf', 'sqrtl') and len(v[2]) == 1 and v[2][0][0] == 'var' and '@' in v[2][0][1]]
+        plain = [v for v in vals if v[0] == 'var' and '@' in v[1]]
         if not eu:
-            ok = any(s.target == ('var', 'ub') and s.value[2] == (('var', 'ub'),) and s in f.body for s in roots) and bool(ret) and ret[-1].value == ('var', 'ub')
-            ctx.check(ok, 'R-DOM', f.file, nm, 'final root', 'the squared variant must return sqrt(sum of squared differences)', f.line)
+            ctx.check(bool(vals) and len(rooted) == len(vals), 'R-DOM', f.file, nm, 'final root', 'the squared variant must return sqrt(sum of squared differences)', f.line)
         else:
-            ok = not any(s.target == ('var', 'ub') for s in roots) and bool(ret) and ret[-1].value == ('var', 'ub')
-            ctx.check(ok, 'R-DOM', f.file, nm, 'no final root', 'the euclidean variant sums point distances and must not root the total', f.line)
+            ctx.check(bool(vals) and len(plain) == len(vals), 'R-DOM', f.file, nm, 'no final root', 'the euclidean variant sums point distances and must not root the total', f.line)
     pm = m.py('dtaidistance.ed')
     f = pm.funcs.get('distance')
     if f is None:
         raise AnalysisError('anchor vanished: ed.distance')
-    txt = [(s.k, fmt(s.target) if s.k == 'assign' else (fmt(s.cond) if s.k == 'if' else '')) for s in walk_stmts(f.body)]
-    ok = False
-    for s in f.body:
-        if s.k == 'if' and fmt(s.cond) == '(len(s1) > len(s2))':
-            a = any(t.k == 'assign' and fmt(t.target) == 'v2' and fmt(t.value) == 's2[(n - 1)]' for t in s.then)
-            la = any(t.k == 'foreach' and fmt(t.iter) == 's1[n::]' for t in s.then)
-            e = s.els[0] if len(s.els) == 1 and s.els[0].k == 'if' else None
-            b = e is not None and fmt(e.cond) == '(len(s1) < len(s2))' and any(t.k == 'assign' and fmt(t.target) == 'v1' and fmt(t.value) == 's1[(n - 1)]' for t in e.then) \
-                and any(t.k == 'foreach' and fmt(t.iter) == 's2[n::]' for t in e.then)
-            ok = a and la and b
-    nn = any(s.k == 'assign' and fmt(s.target) == 'n' and fmt(s.value) == 'min(len(s1), len(s2))' for s in f.body)
-    ret = [s for s in f.body if s.k == 'return']
-    okr = bool(ret) and fmt(ret[-1].value) == 'result_fn(ub)'
-    trip = [s for s in f.body if s.k == 'assign' and s.target[0] == 'tuple' and fmt(s.value).startswith('innerdistance.inner_dist_fns(inner_dist=inner_dist, use_ndim=use_ndim)')]
-    okt = bool(trip) and [x[1] for x in trip[0].target[1]][:2] == ['idist_fn', 'result_fn']
-    ctx.check(ok and nn and okr and okt, 'R-PATH', pm.path, 'distance', 'padding with the last element',
-              'ed.distance must compare surplus elements with the last element of the shorter series and return result_fn(sum) '
-              '(padding=%s n=%s result=%s triple=%s)' % (ok, nn, okr, okt), f.line)
+    s1n, s2n = f.args[0], f.args[1]
+    l1e, l2e = ('call', ('var', 'len'), (('var', s1n),), ()), ('call', ('var', 'len'), (('var', s2n),), ())
+    loops, rets, term = _sum_loops('ed.distance', f.body, 'py', s1n, s2n, l1e, l2e)
+    ok_prefix, ok_pad, detail = decide('distance', pm.path, f.line, loops, term, False)
+    # result_fn(sum) with (point distance, result, ...) = inner_dist_fns(inner_dist=..., use_ndim=...): positions 0 and 1 of the same triple
+    vals = [v for p_, v, st in rets if v is not None]
+    okr = bool(vals)
+    trip = None
+    for v in vals:
+        c = v[1] if v[0] == 'call' else None
+        if not (c is not None and c[0] == 'idx' and c[2] == ('num', 1) and c[1][0] == 'call' and (dotted(c[1][1]) or '').endswith('inner_dist_fns')
+                and len(v[2]) == 1 and v[2][0][0] == 'var' and '@' in v[2][0][1]):
+            okr = False
+        else:
+            trip = c[1]
+    okt = False
+    if trip is not None:
+        kws = dict((k_, v_) for k_, v_ in trip[3])
+        okt = kws.get('inner_dist') == ('var', 'inner_dist') and kws.get('use_ndim') == ('var', 'use_ndim')
+        # the summand is position 0 of the same triple
+        used0 = any(x[0] == 'call' and x[1] == ('idx', trip, ('num', 0)) for lp in loops for s_ in walk_stmts(lp[5].body) for e_ in stmt_exprs(s_)
+                    for x in walk_expr(subst_expr(e_, _single_defs(f))))
+        okt = okt and used0
+    ctx.check(ok_prefix and ok_pad and okr and okt, 'R-PATH', pm.path, 'distance', 'padding with the last element',
+              'ed.distance must pair the common prefix element-wise, compare surplus elements with the last element of the shorter series and return result_fn(sum) '
+              '(prefix=%s padding=%s result=%s triple=%s) %s' % (ok_prefix, ok_pad, okr, okt, detail), f.line)
+
+
+def _single_defs(f):
+    """locals of f with exactly one definition -> that definition (tuple-unpacked calls become subscripts of the call)"""
+    defs = {}
+    for s in walk_stmts(f.body):
+        if s.k == 'assign' and s.target[0] == 'var':
+            defs.setdefault(s.target[1], []).append(s.value)
+        elif s.k == 'assign' and s.target[0] == 'tuple':
+            for i_, t in enumerate(s.target[1]):
+                if t[0] == 'var':
+                    defs.setdefault(t[1], []).append(('idx', s.value, ('num', i_)) if s.value[0] != 'tuple' else s.value[1][i_])
+    return {k_: v_[0] for k_, v_ in defs.items() if len(v_) == 1}
+
+
+def _reads_are(reads, want_item, nd, eq, dom, term=None, ndim='ndim'):
+    """Every subscript (IR) in `reads` addresses item `want_item`: 1-D: subscript == item; n-D: subscript == item * ndim + d with d a plain variable
+    (the dimension counter)."""
+    if not reads:
+        return False
+    for e in reads:
+        try:
+            if not nd:
+                if not eq(term(e), want_item, dom):
+                    return False
+                continue
+            adds = _flat_add(e)
+            prods = [a for a in adds if a[0] == 'bin' and a[1] == '*' and ('var', ndim) in (a[2], a[3])]
+            rest = [a for a in adds if a not in prods]
+            if len(prods) != 1 or len(rest) != 1 or rest[0][0] != 'var':
+                return False
+            item = prods[0][3] if prods[0][2] == ('var', ndim) else prods[0][2]
+            if not eq(term(item), want_item, dom):
+                return False
+        except sym.Unsupported:
+            return False
+    return True
+
+
+def _flat_add(e):
+    if e[0] == 'bin' and e[1] == '+':
+        return _flat_add(e[2]) + _flat_add(e[3])
+    if e[0] == 'cast':
+        return _flat_add(e[-1])
+    return [e]
+
 
 
 def rule_band_laws(ctx):
@@ -239,10 +471,24 @@ def rule_ndim_siblings(ctx, m):
     # dtw.distance_fast selects distance_ndim iff use_ndim
     pm = m.py('dtaidistance.dtw')
     f = pm.funcs.get('distance_fast')
-    ok = False
-    for s in f.body:
-        if s.k == 'if' and fmt(s.cond) == '(s.use_ndim is False)':
-            a = [fmt(t.value)[:len('dtw_cc.distance(')] for t in s.then if t.k == 'assign']
-            b = [fmt(t.value)[:len('dtw_cc.distance_ndim(')] for t in s.els if t.k == 'assign']
-            ok = a == ['dtw_cc.distance('] and b == ['dtw_cc.distance_ndim(']
+    # decided on the returned value with the use_ndim attribute fixed to False / True
+    from ..symexec import peval_fields
+    from ..inline import map_expr
+    ex = Exec()
+    ex.run(f.body, Env())
+    rets = [v for p_, v, st in ex.returns if v is not None and st.k == 'return']
+
+    def fixed(e, val):
+        def f_(x):
+            if x[0] == 'bin' and x[1] in ('is', 'isnot', '==', '!=') and x[2][0] == 'attr' and x[2][2] == 'use_ndim' and x[3][0] == 'bool':
+                return ('bool', (val is x[3][1]) == (x[1] in ('is', '==')))
+            return x
+        e = map_expr(e, f_)
+        e = map_expr(e, lambda x: ('bool', val) if x[0] == 'attr' and x[2] == 'use_ndim' else x)
+        return peval_fields(e, {})
+
+    def callee(e):
+        cs = [dotted(x[1]) for x in walk_expr(e) if x[0] == 'call' and (dotted(x[1]) or '').startswith('dtw_cc.')]
+        return cs
+    ok = len(rets) == 1 and callee(fixed(rets[0], False)) == ['dtw_cc.distance'] and callee(fixed(rets[0], True)) == ['dtw_cc.distance_ndim']
     ctx.check(ok, 'R-VAR', pm.path, 'distance_fast', 'n-D selection', 'distance_fast must call dtw_cc.distance_ndim exactly when use_ndim is set', f.line)
